@@ -97,7 +97,8 @@ def build(U):
     X = U.src('src/broker/update.rs')
     f = X.fn('auto_delete_free_nodes')
     f.r1_logging().r2_closure_underscore()
-    vlib.d11_iter_any(f)
+    if re.search(r'\.iter\(\)\s*\.any\(', f.text):     # otherwise the text goes on as it is
+        vlib.d11_iter_any(f)
     lifted = vlib.d13_retain(f, 'cluster.chunks', 'ChunkStore', [('removed_chunks', '&mut Vec<ChunkStore>', '&mut removed_chunks')], call_prefix='Self::')
     # the lifted closure body as a function of its own (text verbatim), with its statement-level meaning
     L = vlib.Fn('verif_retain_0', f.file, f.line, '    ' + lifted.replace('chunk.clone()', 'shim_clone_chunk(chunk)'), U.log)
